@@ -260,4 +260,171 @@ theorem found_spec (L : List Line) (hinc : Inc L) (hg : Grouped L) : ∀ (fuel p
                 subst this; exact hLi
               · right; right; exact hpr'.complete e hrs hgt h2
 
+/-! ### from the entries found to the index: `dedup_by_key` on the chromosome -/
+
+def dedupGo (last : Option Nat) : List Line → List Line
+  | [] => []
+  | x :: rest => if last = some x.2 then dedupGo last rest else x :: dedupGo (some x.2) rest
+
+/-- the index the tool wants: the first line of every run = adjacent dedup of ALL lines -/
+def runStartsOf (L : List Line) : List Line := dedupGo none L
+
+/-- chromosome of the line before position `k` (`last` before the first) -/
+def prevChrom (last : Option Nat) (L : List Line) (k : Nat) : Option Nat :=
+  if k = 0 then last else (L[k - 1]?).map (·.2)
+
+theorem inc_tail (x : Line) (xs : List Line) (h : Inc (x :: xs)) : Inc xs ∧ ∀ e ∈ xs, x.1 < e.1 := by
+  cases xs with
+  | nil => exact ⟨trivial, by simp⟩
+  | cons y ys =>
+    obtain ⟨h1, h2⟩ := h
+    refine ⟨h2, ?_⟩
+    intro e he
+    obtain ⟨j, hj, rfl⟩ := List.getElem_of_mem he
+    have := getElem_le_of_le (y :: ys) h2 0 j (by simp) hj (Nat.zero_le _)
+    simp only [List.getElem_cons_zero] at this
+    omega
+
+/-- dedup sees the same thing in a sublist that keeps every line whose chromosome differs from its predecessor's -/
+theorem dedup_sublist : ∀ (L R : List Line) (last : Option Nat), Inc L → R.Sublist L →
+    (∀ k (hk : k < L.length), prevChrom last L k ≠ some L[k].2 → L[k] ∈ R) →
+    dedupGo last R = dedupGo last L := by
+  intro L
+  induction L with
+  | nil => intro R last _ hs _; rw [List.sublist_nil.mp hs]
+  | cons x xs ih =>
+    intro R last hinc hs hall
+    obtain ⟨hinc', hgt⟩ := inc_tail x xs hinc
+    -- what the hypothesis says about the tail
+    have htail : ∀ (R' : List Line) (last' : Option Nat), last' = some x.2 → (∀ e ∈ R, e ≠ x → e ∈ R') →
+        ∀ k (hk : k < xs.length), prevChrom last' xs k ≠ some xs[k].2 → xs[k] ∈ R' := by
+      intro R' last' hl hsub k hk hne
+      have := hall (k + 1) (by simpa using hk) (by
+        simp only [prevChrom, Nat.add_one_ne_zero, if_false, Nat.add_sub_cancel, List.getElem_cons_succ]
+        cases k with
+        | zero =>
+          simp only [prevChrom, if_true] at hne
+          simp only [List.getElem?_cons_zero, Option.map_some]
+          rw [← hl]; exact hne
+        | succ k =>
+          simp only [prevChrom, Nat.add_one_ne_zero, if_false, Nat.add_sub_cancel] at hne
+          simp only [List.getElem?_cons_succ]
+          exact hne)
+      simp only [List.getElem_cons_succ] at this
+      apply hsub _ this
+      intro he
+      have := hgt xs[k] (List.getElem_mem hk)
+      rw [he] at this; omega
+    cases hs with
+    | cons _ hs' =>
+      -- `x` is not in `R`: it is not a run start relative to `last`
+      have hxR : x ∉ R := by
+        intro hx
+        have := hgt x (hs'.subset hx); omega
+      have hlast : last = some x.2 := by
+        apply Classical.byContradiction
+        intro hne
+        have := hall 0 (by simp) (by simpa [prevChrom] using hne)
+        exact hxR this
+      simp only [dedupGo, hlast, if_true]
+      rw [← hlast]
+      exact ih R last hinc' hs' (htail R last hlast (fun e he _ => he))
+    | cons_cons _ hs' =>
+      rename_i R''
+      simp only [dedupGo]
+      by_cases hlast : last = some x.2
+      · simp only [hlast, if_true]
+        rw [← hlast]
+        refine ih R'' last hinc' hs' (htail R'' last hlast (fun e he hne => ?_))
+        simp only [List.mem_cons] at he
+        rcases he with rfl | he
+        · exact absurd rfl hne
+        · exact he
+      · simp only [hlast, if_false]
+        congr 1
+        refine ih R'' (some x.2) hinc' hs' (htail R'' (some x.2) rfl (fun e he hne => ?_))
+        simp only [List.mem_cons] at he
+        rcases he with rfl | he
+        · exact absurd rfl hne
+        · exact he
+
+/-- members of an increasing list, listed in increasing order, form a sublist -/
+theorem sublist_of_sorted_mem : ∀ (L R : List Line), Inc L → (∀ e ∈ R, e ∈ L) → R.Pairwise (fun a b => a.1 < b.1) →
+    R.Sublist L := by
+  intro L
+  induction L with
+  | nil =>
+    intro R _ hm _
+    cases R with
+    | nil => exact List.Sublist.slnil
+    | cons r rs => exact absurd (hm r (by simp)) (by simp)
+  | cons x xs ih =>
+    intro R hinc hm hp
+    obtain ⟨hinc', hgt⟩ := inc_tail x xs hinc
+    cases R with
+    | nil => exact List.nil_sublist _
+    | cons r rs =>
+      have hp' := List.pairwise_cons.mp hp
+      have hr := hm r (by simp)
+      simp only [List.mem_cons] at hr
+      rcases hr with rfl | hr
+      · -- the head is kept; the rest lies strictly after it, hence in `xs`
+        refine List.Sublist.cons_cons _ (ih rs hinc' (fun e he => ?_) hp'.2)
+        have := hm e (by simp [he])
+        simp only [List.mem_cons] at this
+        rcases this with rfl | h
+        · have := hp'.1 _ he; omega
+        · exact h
+      · -- the head is skipped: everything in `R` lies in `xs`
+        refine List.Sublist.cons _ (ih (r :: rs) hinc' (fun e he => ?_) hp)
+        have := hm e he
+        simp only [List.mem_cons] at this
+        rcases this with rfl | h
+        · -- `e = x` would lie before `r ∈ xs`, but `e` is `r` or comes after it
+          simp only [List.mem_cons] at he
+          rcases he with rfl | he
+          · exact hr
+          · have h1 := hp'.1 _ he
+            have h2 := hgt r hr
+            omega
+        · exact h
+
+/-- **C18: the repaired bisection yields the chromosome index.** For every grouped file (as its increasing list
+    of line starts with chromosomes), whenever the bisection returns, keeping the first entry of each run of
+    equal chromosomes among "first line + entries found" gives exactly the first line of every chromosome run
+    of the file, in order. -/
+theorem index_spec (x : Line) (xs : List Line) (hinc : Inc (x :: xs)) (hg : Grouped (x :: xs))
+    (fuel fsize : Nat) (hsize : ∀ e ∈ x :: xs, e.1 < fsize) (R : List Line)
+    (h : found (x :: xs) fuel x.1 x.2 none fsize = some R) :
+    dedupGo none (x :: R) = runStartsOf (x :: xs) := by
+  have hp := found_spec (x :: xs) hinc hg fuel x.1 x.2 none fsize R ⟨0, by simp, rfl⟩ hsize h
+  have hsub : (x :: R).Sublist (x :: xs) := by
+    apply sublist_of_sorted_mem (x :: xs) (x :: R) hinc
+    · intro e he
+      simp only [List.mem_cons] at he
+      rcases he with rfl | he
+      · simp
+      · exact (hp.sound e he).1
+    · rw [List.pairwise_cons]
+      exact ⟨fun b hb => (hp.sound b hb).2.1, hp.ordered⟩
+  unfold runStartsOf
+  apply dedup_sublist (x :: xs) (x :: R) none hinc hsub
+  intro k hk hne
+  cases k with
+  | zero => simp
+  | succ k =>
+    simp only [List.mem_cons]
+    right
+    have hk' : k < xs.length := by simpa using hk
+    apply hp.complete
+    · refine ⟨k + 1, hk, rfl, Or.inr ⟨by simp; omega, ?_⟩⟩
+      simp only [prevChrom, Nat.add_one_ne_zero, if_false, Nat.add_sub_cancel] at hne
+      have hk0 : k < (x :: xs).length := by simp; omega
+      rw [List.getElem?_eq_getElem hk0] at hne
+      simp only [Option.map_some, ne_eq, Option.some.injEq] at hne
+      simpa using hne
+    · have := inc_lt (x :: xs) hinc 0 (k + 1) (by simp) hk (by omega)
+      simpa using this
+    · exact hsize _ (List.getElem_mem hk)
+
 end IXP
